@@ -159,6 +159,7 @@ class BaseSession:
         self.all_jobs = []         # never rewound by restore()
         self.njobs_total = 0
         self.berte = None
+        new_process()              # every history starts in a fresh process
 
     def make_berte(self):
         s = dict(use_queue=(self.mode != 'noqueue'),
@@ -201,6 +202,11 @@ class BaseSession:
         k = self.nbound
         self.nbound += 1
         self.boundaries.append(what)
+        pend = getattr(self, 'pending_during', None)
+        if pend is not None and pend[0] == k:
+            # a third party acts while the job runs: right before this push / host write
+            self.pending_during = None
+            self.play([pend[1]])
         if self.crash_at is not None and k == self.crash_at:
             self.crash_at = None
             raise Crash()
@@ -376,6 +382,8 @@ class BaseSession:
                 p.comments = [c for c in p.comments if not (c.author != ROBOT and c.text == args[1])]
             elif kind == 'decline':
                 self.decline(args[0])
+            elif kind == 'during':              # ('during', k, event): the event happens while the next job runs,
+                self.pending_during = (args[0], args[1])    # right before its k-th push / host write
             elif kind == 'jira_set':            # the ticket is edited (None: deleted / never existed)
                 if not hasattr(self, 'jira'):
                     self.jira = {}
@@ -416,6 +424,26 @@ class BaseSession:
         return recs
 
 
+def new_process():
+    """A freshly started server is a new process: whatever the code memoises at module level
+    (functools caches on functions and methods of bert_e modules) starts empty."""
+    import sys
+    import inspect
+    import functools
+    wrapper = type(functools.lru_cache()(lambda: None))
+    for name, mod in list(sys.modules.items()):
+        if not (name == 'bert_e' or name.startswith('bert_e.')) or mod is None:
+            continue
+        objs = list(vars(mod).values())
+        for o in list(objs):
+            if inspect.isclass(o) and o.__dict__.get('__module__') == name:
+                objs += list(vars(o).values())
+        for o in objs:
+            f = o.__func__ if isinstance(o, (staticmethod, classmethod)) else o
+            if isinstance(f, wrapper):
+                f.cache_clear()
+
+
 def quiet(rec):
     """The job changed nothing observable: no ref update, no host write."""
     return not rec['ops'] and not rec['effects']
@@ -428,13 +456,14 @@ class SymSession(BaseSession):
 
     def __init__(self, ctx, shape, prs, mode, no_octopus=True, nfresh=40, extra_refs=(),
                  with_w=False, natoms=None, settings=None, monitors=(), fresh_prs=True,
-                 green=False, no_conflicts=False, log_cut=True, tags=()):
+                 green=False, no_conflicts=False, log_cut=True, tags=(), no_qrefs=False):
         self.ctx = ctx
         refs = list(shape) + [p.src for p in prs] + list(extra_refs)
         if with_w:
             for p in prs:
                 refs += [GF.w_name(p, t) for t in GF.targets(shape, p.dst)[1:]]
-        qrefs = ['q/' + GF.version_of(d) for d in shape] if mode != 'noqueue' else []
+        # (no_qrefs: a repository where nothing was ever queued - the queue branches do not exist yet)
+        qrefs = ['q/' + GF.version_of(d) for d in shape] if mode != 'noqueue' and not no_qrefs else []
         if natoms is None:
             natoms = len(refs) + 1
         repo = SymRepo(ctx, refs + qrefs, natoms, nfresh, tags=tags)
@@ -500,6 +529,7 @@ class SymSession(BaseSession):
         r.cmd_directory = None
         r._remote_branches = {}
         r._remote_heads = {}
+        new_process()
         self.make_berte()
 
     def mark(self):
@@ -729,6 +759,7 @@ class RealSession(BaseSession):
         except Exception:
             pass
         self.repo = self.world.repository()
+        new_process()
         self.make_berte()
 
     def end_job(self):
